@@ -112,6 +112,9 @@ pub struct EngineCfg {
     /// FAULT engine: arm this plan for commit number `.0`; `.2` = Some(true) commit must
     /// succeed (benign fault), Some(false) must fail, None either
     pub fault: Option<(u32, Vec<simos::Fault>, Option<bool>)>,
+    /// further faulted commits after the first (adjacent-commit pairs); a plan that does not
+    /// fire leaves its commit an ordinary one
+    pub more_faults: Vec<(u32, Vec<simos::Fault>)>,
     pub record_calls: bool,
     pub final_reopen_verify: bool,
     /// reported oracle ids; a failure of any other oracle ends the run quietly
@@ -139,6 +142,7 @@ impl EngineCfg {
             keep_models: false,
             stop_after_commit: None,
             fault: None,
+            more_faults: Vec::new(),
             record_calls: false,
             final_reopen_verify: false,
             oracles: vec![],
@@ -909,7 +913,15 @@ impl<'a> Engine<'a> {
         let n = self.commit_no;
         let log_call = simos::log_len();
         simos::mark(Marker::CommitCall { n });
-        let faulted = self.cfg.fault.clone().filter(|f| f.0 == n);
+        let mut faulted = self.cfg.fault.clone().filter(|f| f.0 == n);
+        let mut secondary = false;
+        if faulted.is_none() {
+            if let Some(m) = self.cfg.more_faults.iter().find(|m| m.0 == n) {
+                faulted = Some((m.0, m.1.clone(), None));
+                secondary = true;
+            }
+        }
+        let fired_before = simos::fired().len();
         if let Some(f) = &faulted {
             simos::arm(f.1.clone());
         } else if self.cfg.record_calls {
@@ -920,8 +932,12 @@ impl<'a> Engine<'a> {
         let ok = matches!(r, Ok(Ok(())));
         simos::mark(Marker::CommitReturn { n, ok });
         let log_ret = simos::log_len();
+        if secondary && simos::fired().len() == fired_before {
+            // the second plan did not fire (the first failure changed what this commit writes)
+            faulted = None;
+        }
         if let Some(f) = faulted {
-            self.after_fault(db, f.2, r, view);
+            self.after_fault(db, f.2, r, view, fired_before);
             return;
         }
         match r {
@@ -1049,8 +1065,8 @@ impl<'a> Engine<'a> {
 
     /// C11: the commit ran with an injected I/O error. Judge what it returned and what state
     /// the database is in on the same handle, then let the history continue from that state.
-    fn after_fault(&mut self, db: &DB, expect_ok: Option<bool>, r: Result<Result<(), jammdb::Error>, String>, view: MBucket) {
-        let fired = simos::fired();
+    fn after_fault(&mut self, db: &DB, expect_ok: Option<bool>, r: Result<Result<(), jammdb::Error>, String>, view: MBucket, fired_before: usize) {
+        let fired: Vec<_> = simos::fired().into_iter().skip(fired_before).collect();
         if fired.is_empty() {
             self.out.skipped = Some("the planned fault did not fire".into());
             self.stop = true;
